@@ -121,7 +121,7 @@ fn exec_huge(case: &Case, stats: &mut Stats) -> RunOut<Case> {
     data.reserve(1 << 20);
     let mut offsets: Vec<u64> = case.prefill_offsets.clone();
     let bin: Vec<Vec<u8>> = case.regs.iter().map(mval::encode).collect();
-    stats.inc(if n >= (1usize << 32) - 64 { "probe/prior_buffer_4gib" } else { "probe/prior_buffer_256mib" });
+    stats.inc(if n >= (1usize << 32) - 64 { "probe/prior_buffer_4gib" } else if n >= (1usize << 28) - 64 && n < (1usize << 28) + 64 { "probe/prior_buffer_256mib" } else { "probe/prior_buffer_seeded_pow2" });
     for (ci, call) in case.calls.iter().enumerate() {
         let name = call.op.name();
         let own;
@@ -364,6 +364,10 @@ impl Scenario for Batch {
             (1u64 << 28) - 16 + r.below(64)
         } else if run % 120_000 == 11 {
             (1u64 << 32) - 16 + r.below(64)
+        } else if run % 40_000 == 13 {
+            // and a few against a seeded power of two in between (2^16 .. 2^31: the widths a position could be
+            // narrowed to on the way -- u16, 24 bits, 28 bits, i32), straddled the same way
+            (1u64 << r.urange(16, 31)) - 16 + r.below(64)
         } else {
             0
         };
@@ -874,7 +878,7 @@ impl Scenario for Batch {
     fn rule(&self) -> String {
         "A case is a batch: 2-6 generated documents, an initial buffer content (empty / 0xAA filler / random bytes up to 512) and offsets, a capacity policy \
          (exact fit before every call, large reserve, alternating), and 1-40 calls drawn from a per-batch random subset of the buffer-writing functions, each \
-         document argument independently passed as JSONB or JSON text where the function has a text branch, a seeded fraction built to fail for a documented reason; a handful of batches per tier start from a buffer of 2^28 resp. 2^32 zero bytes (prefix checked in place). \
+         document argument independently passed as JSONB or JSON text where the function has a text branch, a seeded fraction built to fail for a documented reason; a handful of batches per tier start from a buffer of 2^28 resp. 2^32 zero bytes, and a few more from a seeded power of two between 2^16 and 2^31, each -16..+48 bytes (prefix checked in place). \
          Every call is executed on the shared buffer and, side by side, on an empty one. distinct_nontrivial = distinct (function, arguments) pairs, by 64-bit hash of \
          the call and its argument bytes, that were executed with a non-empty prior buffer."
             .into()
@@ -919,6 +923,7 @@ impl Scenario for Batch {
             "probe/unparsable_text_injected",
             "probe/compiled_selector_reused",
             "probe/prior_buffer_256mib",
+            "probe/prior_buffer_seeded_pow2",
             "probe/item_of_2pow28_bytes",
         ]
     }
